@@ -142,7 +142,9 @@ class ContentProvider(object):
     def write(self, dst):
         fs.ensure_path(os.path.dirname(dst))
         # Clean Spec Content when writing it down to disk before uploading
-        content = "\n".join(self._clean_content())
+        content = self._clean_content()
+        # the output of a command collected with split=False is one string, not a list of lines
+        content = content if isinstance(content, six.string_types) else "\n".join(content)
         content = content.encode("utf-8") if six.PY3 else content
         with open(dst, "wb") as f:
             f.write(content)
